@@ -121,14 +121,15 @@ CLAIMS = {
                 "wf_choice_master (names distinct up to case, no residual '*', not none/auto) is a stated hypothesis only where names matter.",
     },
     "C14": {
-        "text": "Theorems (all strings / target lists, closed under the global context): get_path_score equals the declarative 9-class classification (C14_score_spec) "
-                "with find/startswith/endswith given list-level specs; the numeric order is exactly the property's preference order (C14_order, iff); a full path among "
-                "duplicate-free targets always wins; the decision is Chosen iff unique maximiser, Chosen-with-warning iff the integer tie-break singles one out, "
-                "Ambiguous with exactly the list of maximisers, Unknown iff all scores are 0, and nothing else (C14_choice_*); targets are exactly the dotted paths of "
-                "active non-include definitions; process_args maps the arguments in order. Refutations by witness: duplicate path (F13), outsider wins (F20), empty master (F19). "
+        "text": "Theorems (all strings / masters / target lists, 27, closed under the global context): get_path_score equals the declarative 9-class classification (iff) with "
+                "find/startswith/endswith given list-level specs; the numeric order is exactly the property's preference order (iff); a full path ALWAYS addresses its parameter, for "
+                "any master (targets are the duplicate-free dotted paths of active non-include definitions, first occurrence kept); the decision is Chosen iff unique maximiser, "
+                "Chosen-with-warning iff the best score is shared and this position alone has the lowest expert level among the best, Ambiguous with exactly the list of best "
+                "candidates, Unknown iff all scores are 0, nothing else; whatever is chosen is a best match (C14_chosen_is_best); process_args maps the arguments in order. "
                 "PARTIAL for value transfer and process_and_fetch = fetch of individually interpreted arguments, which the oracle checks on the implementation.",
         "note": "Trusted: Coq kernel, extraction, driver, harness, hand-written model of command_line.py + all_definitions. The float tie-break score-level/100 is modelled by "
-                "the integer key 100*score-level, exact for levels 0..99; outside the entry answers 'unmodelled'. Argument parsing, re-rendering and fetch are not in this model.",
+                "the integer key 100*score-level among equal scores, exact for levels within +-2^40; beyond that the entry answers 'unmodelled'. Argument parsing, re-rendering and "
+                "fetch are not in this model.",
     },
     "C01": {
         "text": "Theorems (closed under the global context): for EVERY text the parser model accepts that has no deprecated definition and no include line, parse -> print at attributes "
